@@ -83,7 +83,8 @@ Theorem C02_scalar_objects_exact : forall idf cf defs fmt_ok env sdefs f fd fv s
 Proof. exact scalar_object_exact. Qed.
 Print Assumptions C02_scalar_objects_exact.
 
-(* ... and through every depth: objects whose properties are such scalars or, recursively, such objects again, nested n levels deep
+(* ... and through every depth: objects whose properties are such scalars (or numbers with any combination of the four bounds and no
+   multipleOf) or, recursively, such objects again, nested n levels deep
    ([sobj n]); documents without nulls, with ASCII strings, integer literals inside Go's int and distinct keys at every level ([dok n]).
    By induction on n over C02_level_exact: the check attached to an object-valued property is the nested struct's own method. *)
 Theorem C02_nested_objects_exact : forall idf cf defs fmt_ok env sdefs,
